@@ -539,6 +539,19 @@ def huge_int_specs(rng):
     return [sp for sp in out if abs(sp["lower"]) <= 2 ** 53 and abs(sp["upper"]) <= 2 ** 53]
 
 
+def odd_logfinrange_specs(rng):
+    """log-scaled finite ranges with cast_int whose rounded values sit far from their grid points in
+    the internal domain (few values per octave, small integers): the index found by rounding in log
+    space need not be the value's own index (F-C07-15)."""
+    out = [dict(kind="logfinrange", lower=5.5, upper=11.0, size=5, cast_int=True)]
+    for _ in range(6):
+        lo = rng.choice([1.5, 2.5, 3.5, 4.5, 5.5, 6.5, 0.6, 1.2, 2.2, rng.uniform(0.5, 9.0)])
+        hi = lo * rng.choice([1.5, 2.0, 2.0, 3.0, 4.0, rng.uniform(1.2, 6.0)])
+        out.append(dict(kind="logfinrange", lower=float(lo), upper=float(hi), size=rng.choice([3, 4, 5, 6, 7, 9]),
+                        cast_int=True))
+    return out
+
+
 def thresholds_unit(spec, rng):
     """Points of [0,1] where the model's decode switches value (computed with exact rationals, the same
     formulas as the model: v * size + lower_internal = k + 1/2), as floats around them."""
@@ -713,7 +726,7 @@ def run(ctx, replay=None):
                   dict(kind="reverseloguniform", lower=0.1, upper=0.9)]
         huge = huge_int_specs(rng)
         rng.shuffle(huge)
-        specs = huge[:ctx.n(8, 60)] + specs     # first: their violations are reported first
+        specs = huge[:ctx.n(8, 60)] + odd_logfinrange_specs(rng)[:ctx.n(5, 7)] + specs   # first: reported first
         spaces = None
 
     only = replay.get("only") if replay else None
@@ -811,7 +824,7 @@ def single_domain_cases(ctx, C, spec, rng, cs, make_hpr, only=None, forced_activ
                 vals += [int(spec["lower"]), int(spec["upper"]), float(int(mid)) + 0.5]
             if kind in ("finrange", "logfinrange"):
                 vs_ = dom.values
-                vals += [vs_[0], vs_[-1], rng.choice(vs_)]
+                vals += list(vs_) if len(vs_) <= 12 else [vs_[0], vs_[-1], rng.choice(vs_)]
                 if len(vs_) > 1:
                     i = rng.randrange(len(vs_) - 1)
                     vals += [(vs_[i] + vs_[i + 1]) / 2, vs_[i] * 0.7 + vs_[i + 1] * 0.3]
@@ -996,6 +1009,9 @@ def range_cases(ctx, C, spec, active, dom, adom, hpr, rng, count, scale):
         if kind in ("randint", "lograndint", "qrandint", "qlograndint"):
             # +-1 ulp from the exact corners
             vecs += [[float(np.nextafter(0.0, 1.0))], [float(np.nextafter(1.0, 0.0))]]
+        if kind in ("finrange", "logfinrange") and spec["size"] <= 12:
+            # the centre of every index cell: every listed value is decoded (and then round-tripped)
+            vecs += [[(k_ + 0.5) / spec["size"]] for k_ in range(spec["size"])]
     inb = []
     if ok:
         inb.append([a for a, b in bounds])
